@@ -163,7 +163,7 @@ class P(Prop):
     def compare(self, case, hres, mres):
         # the model predicts the token stream and the bytes; the three round-trip flags are for the oracle
         if isinstance(hres.get("r"), list) and mres is not None:
-            hres = dict(hres, r=hres["r"][:-3])
+            hres = dict(hres, r=hres["r"][:-4])
         return Prop.compare(self, case, hres, mres)
 
     def oracle(self, case, h):
@@ -175,13 +175,15 @@ class P(Prop):
         nt = r[0]
         nb = r[1 + nt]
         bytes_ = r[2 + nt: 2 + nt + nb]
-        json_ok, cbor_ok, borsh_ok = r[-3:]
+        json_ok, cbor_ok, borsh_ok, chunked_ok = r[-4:]
         if json_ok == 0:
             return "serde_json text round trip does not return the same bits"
         if cbor_ok == 0:
             return "serde_cbor round trip does not return the same bits"
         if borsh_ok != 1:
             return "borsh round trip %s" % ("failed to serialise" if borsh_ok == 3 else "does not return the same bits")
+        if chunked_ok != 1:
+            return "borsh: reading the serialised bytes back through a reader that returns short counts does not return the same bits"
         if case["ty"].startswith("Piecewise<"):
             exp = borsh_expected(None, None, case["segs"])
         else:
